@@ -6,6 +6,8 @@ mod rustcheck;
 mod inproc;
 mod c12;
 mod c08;
+mod c09;
+mod c16;
 pub mod compile;
 
 fn opt(args: &[String], k: &str) -> Option<String> {
@@ -74,6 +76,8 @@ fn main() {
                 "C01" | "C02" | "C03" | "C04" | "C05" | "C06" | "C15" | "C17" | "C18" => rustcheck::run(&prop, &tier, seed),
                 "C12" => c12::run(&tier, seed),
                 "C08" => c08::run(&tier, seed),
+                "C09" => c09::run(&tier, seed),
+                "C16" => c16::run(&tier, seed),
                 _ => {
                     eprintln!("unknown property {prop}");
                     2
